@@ -15,7 +15,7 @@ import (
 
 // hop is one step of a client history.
 type hop struct {
-	Op   string `json:"op"`             // start do indicate respond unknown garbage tick fail close setrto mutate
+	Op   string `json:"op"`             // start do indicate respond unknown garbage readerr tick fail close setrto mutate
 	ID   int    `json:"id,omitempty"`   // transaction id index
 	Size int    `json:"size,omitempty"` // request size (start/do/indicate), response size (respond)
 	At   string `json:"at,omitempty"`   // tick: before | at | after | far  (relative to the earliest deadline)
@@ -636,6 +636,15 @@ func (e *engine) step(i int, h hop) error {
 		}
 		if !e.w.Conn.Deliver(d) {
 			return fmt.Errorf("%s: the reader did not consume the datagram and return to Read within 30 s", name)
+		}
+	case "readerr":
+		// a transient error from the connection's Read (not a close): nothing may happen to any
+		// transaction, and the client must go on receiving
+		if e.closed {
+			return nil
+		}
+		if !e.w.Conn.ReadError(30 * time.Second) {
+			return fmt.Errorf("%s: after a transient Read error the reader did not return to Read within 30 s although the client is not closed", name)
 		}
 	case "fail":
 		e.failArm[h.ID]++
